@@ -40,6 +40,7 @@ MAP = [
  ("splits a quoted string", ["C20"]),
  ("guard is the constant False", ["C05"]),
  ("guard that is also a solve variable", ["C08", "C02"]),
+ ("dependency that was already planned", ["C04"]),
 ]
 def main():
     log = subprocess.run(["git", "-C", "/repo", "log", "--reverse", "--format=%h %s"],
